@@ -30,7 +30,7 @@ ANCHORS = ['parse_one_cell', 'apply_but', 'parse_keywords', 'cellcard.py:split',
            'get_ast']
 REQUIRED_REACH = ['ParseMCNPCell.parse_one_cell', 'ParseMCNPCell.apply_but',
                   'ParseMCNPCell.parse_keywords']
-FAMILIES = ['trcl', 'mat-rho', 'imp', 'u', 'fill', 'chain', 'forward',
+FAMILIES = ['trcl', 'mat-rho', 'rho-only', 'imp', 'u', 'fill', 'chain', 'forward',
             'everything', 'base-has-all']
 _PER = {'quick': 16, 'thorough': 900}
 
@@ -110,7 +110,8 @@ def build(case):
         else:
             new.trcl = tr_spec(rng, mot, form)
         but.add('trcl')
-        want = {'trcl': set(), 'mat-rho': {'mat', 'rho'}, 'imp': {'imp'},
+        want = {'trcl': set(), 'mat-rho': {'mat', 'rho'}, 'rho-only': {'rho'},
+                'imp': {'imp'},
                 'u': set(), 'fill': {'fill'}, 'chain': set(),
                 'forward': set(),
                 'everything': {'mat', 'rho', 'imp', 'fill'},
@@ -123,6 +124,11 @@ def build(case):
             new.mat = rng.randint(1, nmat)
         if 'rho' in extra:
             new.rho = f'-{rng.randint(1, 9)}.{rng.randint(1, 9)}'
+            roll = rng.random()
+            if roll < 0.25:
+                new.rho += '0' * rng.randint(1, 2)          # -1.50
+            elif roll < 0.45:
+                new.rho += rng.choice(['-1', 'd-1', 'E-1', 'e+1', '+1'])  # -6.5-1
         if int(new.mat) != 0 and new.rho is None:
             new.rho = '-1.1'
             extra.add('rho')
